@@ -50,6 +50,34 @@ Theorem C18_gc_ignores_live : forall j fresh now1 now2,
 Proof. exact gc_ignores_live. Qed.
 Print Assumptions C18_gc_ignores_live.
 
+(* the finish time is the recorded status.state.lastTransitionTime, never the
+   creation time; without it nothing is collected and an error is returned *)
+Theorem C18_gc_creation_irrelevant : forall lj fresh now1 now2 c1 c2,
+  let recreate c (j : gjob) := mkGjob (g_uid j) (g_phase j) (g_ttl j) (g_deleting j) (g_finish j) c in
+  process_job (option_map (recreate c1) lj) (option_map (recreate c2) fresh) now1 now2 =
+  process_job lj fresh now1 now2.
+Proof. exact gc_creation_irrelevant. Qed.
+Print Assumptions C18_gc_creation_irrelevant.
+
+Theorem C18_gc_no_finish_time_never_collected : forall lj f now1 now2,
+  g_finish f = None ->
+  go_delete (process_job lj (Some f) now1 now2) = None.
+Proof. exact gc_no_finish_time_never_collected. Qed.
+Print Assumptions C18_gc_no_finish_time_never_collected.
+
+Theorem C18_gc_no_finish_time_error : forall j fresh now1 now2,
+  finished (g_phase j) = true -> g_deleting j = false -> g_ttl j <> None -> g_finish j = None ->
+  process_job (Some j) fresh now1 now2 = mkGcOut [] None true.
+Proof. exact gc_no_finish_time_error. Qed.
+Print Assumptions C18_gc_no_finish_time_error.
+
+Theorem C18_gc_no_finish_time_error_fresh : forall j f now1 now2,
+  gc_due j now1 ->
+  finished (g_phase f) = true -> g_deleting f = false -> g_ttl f <> None -> g_finish f = None ->
+  process_job (Some j) (Some f) now1 now2 = mkGcOut [] None true.
+Proof. exact gc_no_finish_time_error_fresh. Qed.
+Print Assumptions C18_gc_no_finish_time_error_fresh.
+
 (* ---------------- cron: the schedule choice ---------------- *)
 
 (* for every schedule function that yields the least whole-second point after
@@ -189,7 +217,7 @@ Print Assumptions C18_cron_invalid_zone_no_start.
 
 (* ---------------- non-vacuity ---------------- *)
 Example C18_gc_nonvacuous :
-  let j := mkGjob 1 PhCompleted (Some 10) false (Some (5 * sec)) in
+  let j := mkGjob 1 PhCompleted (Some 10) false (Some (5 * sec)) (Some 0) in
   gc_due j (15 * sec) /\ ~ gc_due j (15 * sec - 1) /\
   process_job (Some j) (Some j) (15 * sec) (15 * sec) = mkGcOut [] (Some 1) false /\
   process_job (Some j) (Some j) (15 * sec - 1) (15 * sec - 1) = mkGcOut [1] None false.
